@@ -50,7 +50,7 @@ func c17Cases(tier string, seed uint64) []fw.Case {
 		}
 	}
 	for i, p := range progs {
-		c := c17Case{Kind: "storm", AST: p.AST, Vars: assignments(p.NV, 1, rng)[0], Fam: p.Family, Procs: []int{4, 16}[i%2], Reps: reps}
+		c := c17Case{Kind: "storm", AST: p.AST, Vars: zeroData(assignments(p.NV, 1, rng)[0], p.AST), Fam: p.Family, Procs: []int{4, 16}[i%2], Reps: reps}
 		c.Name = "storm/" + p.Name
 		cs = append(cs, fw.MkCase("storm", &c))
 	}
